@@ -49,10 +49,22 @@ def _comp_ok(s):
     return _printable(s)
 
 
+EXCL_ARCHIVE = param('excl_archive', True)
+
+
 def _in_scope(s, excl):
     for ch in s:
         if ch in excl:
             return False
+    if EXCL_ARCHIVE:
+        # lib(member): GNU Make reads a word of this form as an archive member; no spelling avoids
+        # it (established by the representability probe), so such names are outside the quantifier
+        w = ['d/' + s, s, s + '/leaf.o'][SHAPE]
+        k = w.find('(')
+        if k > 0 and w[-1] == ')' and len(w) - 1 != k + 1:
+            return False
+        if ROOTI == 1 and k == 0 and w[-1] == ')' and len(w) > 2:
+            return False           # ./(x) : the realised word is './(x)'
     return True
 
 
@@ -199,6 +211,7 @@ def nb_build_line(c: str) -> bool:
 
 # ---- positions whose file exists when Make reads the name (sources, depfiles) -----------------
 EXCL_SRC = param('excl_src', ';=')
+FIRSTCH = param('first', '')            # partition: first character of the component
 KF_INCLUDE = param('kf_include', False)   # C04-F15: ':' / '%' / leading '~' in an -include line
 
 
@@ -207,6 +220,7 @@ def ms_source_prereq(c: str) -> bool:
     backslash-escaped, which glob(3) resolves to the existing file of that name
     pre: len(c) == N and _comp_ok(c) and _in_scope(c, EXCL_SRC)
     pre: not (KF_TILDE and c[0] == '~' and SHAPE != 0 and ROOTI == 0)
+    pre: FIRSTCH == '' or c[0] == FIRSTCH
     post: _
     """
     p = _mkpath(c)
